@@ -122,6 +122,25 @@ theorem owed_rewrite_reloads (env : Env) (i : InstView) (h : i.configNil = false
   simp only [h, ho, h1, h2, h3, h4, h5, Bool.false_eq_true, ↓reduceIte, bne_self_eq_false]
   skel env i => exact ⟨rfl, rfl⟩
 
+/-- an owed rewrite sorts the endpoints and fills the source address of EVERY backend before the configuration is
+written (repair b7287f0: the backends of the failed update are no longer in the changed set, `FillSourceIPs` alone
+would skip them), once each; without an owed rewrite neither step runs -/
+theorem owed_rewrite_fills_all (env : Env) (i : InstView) (h : i.configNil = false) (ho : i.rewriteOwed = true)
+    (hw : NoWriteFails env) :
+    (run env i).2.1.count "SortAllEndpoints" = 1 ∧ (run env i).2.1.count "FillAllSourceIPs" = 1 := by
+  obtain ⟨h1, h2, h3, h4, h5⟩ := hw
+  unfold_skel
+  simp only [h, ho, h1, h2, h3, h4, h5, Bool.false_eq_true, ↓reduceIte, bne_self_eq_false]
+  skel env i => exact ⟨rfl, rfl⟩
+
+theorem no_owed_rewrite_no_fill_all (env : Env) (i : InstView) (h : i.configNil = false) (ho : i.rewriteOwed = false)
+    (hw : NoWriteFails env) :
+    (run env i).2.1.count "SortAllEndpoints" = 0 ∧ (run env i).2.1.count "FillAllSourceIPs" = 0 := by
+  obtain ⟨h1, h2, h3, h4, h5⟩ := hw
+  unfold_skel
+  simp only [h, ho, h1, h2, h3, h4, h5, Bool.false_eq_true, ↓reduceIte, bne_self_eq_false]
+  skel env i => exact ⟨rfl, rfl⟩
+
 /-- a reload that failed is retried by the next update even if nothing changed -/
 theorem owed_reload_retried (env : Env) (i : InstView) (h : i.configNil = false) (ho : i.reloadOwed = true)
     (hw : NoWriteFails env) :
